@@ -1,4 +1,4 @@
-(* Timer theorems, part 15: C05 (c).  Whenever Lock answers TIMEOUT itself (Timeout = 0 and not admitted, the
+(* Timer theorems, part 15: C05 (c).  Whenever Lock answers TIMEOUT itself (Timeout = 0 and not accepted, the
    concurrent-check pre-checks, or the timeout-when-data flag), nothing of the request is retained: the record that
    was allocated for it is freed again, all other records, every wait queue and both timeout structures are as before. *)
 From Coq Require Import String ZifyN ZifyBool ZifyNat.
